@@ -13,12 +13,32 @@ theorem digitsVal_append (xs : List Char) (c : Char) :
     digitsVal (xs ++ [c]) = digitsVal xs * 10 + digitVal c := by
   simp [digitsVal, List.foldl_append]
 
+theorem natDigitsFuel_eq_spec (n : Nat) : ∀ fuel, n ≤ fuel → natDigitsFuel fuel n = natDigitsSpec n := by
+  induction n using Nat.strongRecOn with
+  | ind n ih =>
+    intro fuel hf
+    cases fuel with
+    | zero =>
+      have : n = 0 := by omega
+      subst this
+      rw [natDigitsSpec]; simp [natDigitsFuel]
+    | succ fuel =>
+      rw [natDigitsSpec]
+      simp only [natDigitsFuel]
+      by_cases h : n < 10
+      · simp [h]
+      · simp only [h, if_false]
+        rw [ih (n / 10) (by omega) fuel (by omega)]
+
+theorem natDigits_eq_spec (n : Nat) : natDigits n = natDigitsSpec n :=
+  natDigitsFuel_eq_spec n n (Nat.le_refl n)
+
 theorem natDigits_lt (n : Nat) (h : n < 10) : natDigits n = [digitChar n] := by
-  rw [natDigits]; simp [h]
+  rw [natDigits_eq_spec, natDigitsSpec]; simp [h]
 
 theorem natDigits_ge (n : Nat) (h : ¬ n < 10) :
     natDigits n = natDigits (n / 10) ++ [digitChar (n % 10)] := by
-  rw [natDigits]; simp [h]
+  rw [natDigits_eq_spec, natDigits_eq_spec, natDigitsSpec]; simp [h]
 
 theorem digitsVal_natDigits (n : Nat) : digitsVal (natDigits n) = n := by
   induction n using Nat.strongRecOn with
